@@ -586,6 +586,8 @@ class Resolver:
         ty = op.get("ty", "")
         if "fn" in op:
             return ("const", "fn", ("fn", op["fn"]))
+        if "enum_variant" in op:
+            return ("const", ty, ("enum", op["enum_variant"]))
         if "bits" in op:
             return ("const", ty, int(op["bits"]))
         if "str" in op:
@@ -772,6 +774,8 @@ def tree_str(t, depth=0):
         v = t[2]
         if isinstance(v, tuple) and v and v[0] == "fn":
             return "fn:" + short(v[1])
+        if isinstance(v, tuple) and v and v[0] == "enum":
+            return "%s::%s" % (t[1].lstrip("&").rsplit("::", 1)[-1], v[1])
         if isinstance(v, tuple):
             return "bytes[%d]" % len(v)
         return repr(v) if isinstance(v, str) else "%s%s" % (v, ("_" + t[1]) if t[1] else "")
